@@ -584,3 +584,73 @@ def stateless_rule(ctx, model, rid: str, modules, floor: int, what: str, allowed
     ctx.ok()
 
 
+
+
+ALIASING_CALLS = {"asarray", "asanyarray", "ascontiguousarray", "atleast_1d", "atleast_2d", "ravel", "squeeze", "reshape", "transpose", "view"}
+
+
+def array_param_writes(fn: ast.FunctionDef) -> List[Tuple[str, ast.AST, str]]:
+    """(parameter, statement, how) for every statement that writes into an array the caller passed: through the parameter
+    itself or through a local alias of it (plain rebinding, numpy's non-copying conversions, views and slices).  A name
+    re-bound to a fresh value (arithmetic, copy(), array(), zeros…) stops being an alias."""
+    params = [a for a in fn.args.posonlyargs + fn.args.args + fn.args.kwonlyargs if a.annotation is not None and "NDArray" in norm(a.annotation)
+              or (a.annotation is not None and any(t in norm(a.annotation) for t in ("ComplexImpedances", "Frequencies", "Impedances", "TimeConstants", "Gammas")))]
+    alias: Dict[str, str] = {a.arg: a.arg for a in params}
+    out: List[Tuple[str, ast.AST, str]] = []
+
+    def root_of(e: ast.AST) -> Optional[str]:
+        """The parameter an expression aliases (None: a fresh object or unknown)."""
+        if isinstance(e, ast.Name):
+            return alias.get(e.id)
+        if isinstance(e, ast.Attribute) and e.attr in ("T", "real", "imag", "flat"):
+            return root_of(e.value)
+        if isinstance(e, ast.Subscript):
+            if isinstance(e.slice, (ast.Slice,)) or (isinstance(e.slice, ast.Tuple) and any(isinstance(x, ast.Slice) for x in e.slice.elts)):
+                return root_of(e.value)  # basic slicing gives a view
+            return None
+        if isinstance(e, ast.Call):
+            f = e.func
+            name = f.attr if isinstance(f, ast.Attribute) else (f.id if isinstance(f, ast.Name) else "")
+            if name in ALIASING_CALLS:
+                src = f.value if isinstance(f, ast.Attribute) and not isinstance(f.value, ast.Name) or (isinstance(f, ast.Attribute) and isinstance(f.value, ast.Name) and f.value.id in alias) else (e.args[0] if e.args else None)
+                if isinstance(f, ast.Attribute) and isinstance(f.value, ast.Name) and f.value.id not in alias and e.args:
+                    src = e.args[0]  # numpy.asarray(x)
+                return root_of(src) if src is not None else None
+            return None
+        return None
+
+    for s in walk_ordered(fn):
+        if isinstance(s, (ast.Assign, ast.AnnAssign)) and getattr(s, "value", None) is not None:
+            targets = s.targets if isinstance(s, ast.Assign) else [s.target]
+            for t in targets:
+                if isinstance(t, ast.Name):
+                    r = root_of(s.value)
+                    if r is not None:
+                        alias[t.id] = r
+                    else:
+                        alias.pop(t.id, None)
+                elif isinstance(t, ast.Subscript):
+                    r = root_of(t.value)
+                    if r is not None:
+                        out.append((r, s, f"stores into {norm(t)[:40]}"))
+                elif isinstance(t, ast.Attribute) and t.attr in ("real", "imag"):
+                    r = root_of(t.value)
+                    if r is not None:
+                        out.append((r, s, f"stores into {norm(t)[:40]}"))
+        elif isinstance(s, ast.AugAssign):
+            t = s.target
+            base = t.value if isinstance(t, (ast.Subscript, ast.Attribute)) else t
+            r = root_of(base) if not isinstance(t, ast.Name) else alias.get(t.id)
+            if r is not None:
+                out.append((r, s, f"updates {norm(t)[:40]} in place"))
+        elif isinstance(s, ast.Call) and isinstance(s.func, ast.Attribute) and s.func.attr in ("fill", "sort", "resize", "put", "partition", "itemset", "setfield"):
+            r = root_of(s.func.value)
+            if r is not None:
+                out.append((r, s, f"calls {norm(s.func)[:40]}(…)"))
+        if isinstance(s, ast.Call):
+            for k in s.keywords:
+                if k.arg == "out":
+                    r = root_of(k.value)
+                    if r is not None:
+                        out.append((r, s, f"writes the result into {norm(k.value)[:30]} (out=)"))
+    return out
